@@ -1,7 +1,7 @@
 """C05 - aromatic SMILES are kekulized correctly, or rejected, independent of atom order."""
 import time
 
-from .. import rt, judge, driver, engine, respell, ench
+from .. import rt, judge, driver, engine, respell, ench, skel
 from ..ctx import Ctx
 from ..engine import fresh_int
 from ..oread import read_smiles
@@ -139,44 +139,7 @@ def run(rep, tier, seed, budget):
     # spanning tree in writing order (the parent of atom i is atom i-1 or one of its ancestors), then which other pairs are
     # ring bonds (degree <= 3) - is written out and sent through the real encoder and decoder; O-KEK decides what must happen
     def struct_input(n):
-        def mk():
-            parent, stack = [None], [0]
-            deg = [0] * n
-            for i in range(1, n):
-                cands = [k for k in range(len(stack)) if deg[stack[k]] < 3]
-                k = cands[int(fresh_int("p%d" % i, 0, len(cands) - 1))]
-                parent.append(stack[k])
-                deg[stack[k]] += 1
-                deg[i] += 1
-                stack = stack[:k + 1] + [i]
-            tree = {(parent[i], i) for i in range(1, n)}
-            rings = []
-            for i in range(n):
-                for j in range(i + 1, n):
-                    if (i, j) in tree or deg[i] >= 3 or deg[j] >= 3:
-                        continue
-                    if bool(engine.fresh_bool("r_%d_%d" % (i, j))):
-                        rings.append((i, j))
-                        deg[i] += 1
-                        deg[j] += 1
-            children = {i: [] for i in range(n)}
-            for i in range(1, n):
-                children[parent[i]].append(i)
-            lab = {e: k + 1 for k, e in enumerate(sorted(rings, key=lambda e: (e[1], e[0])))}
-
-            def atom(u):
-                t = "c"
-                for e in sorted(rings):
-                    if u in e:
-                        t += str(lab[e]) if lab[e] < 10 else "%%%d" % lab[e]
-                ch = children[u]
-                for c in ch[:-1]:
-                    t += "(" + atom(c) + ")"
-                if ch:
-                    t += atom(ch[-1])
-                return t
-            return atom(0)
-        return mk
+        return lambda: skel.skeleton(n, atoms=("c",), max_deg=3)
 
     for n in ((4, 6) if quick else (4, 6, 7, 8)):
         left = t_end - time.time()
